@@ -11,7 +11,7 @@ BALANCE_KINDS = ["Reg", "Can", "Act", "Stake", "Vote2", "Renew", "RetVotes", "To
 
 # rollback closures recorded as inexact (known_findings.d/C21.json): RollbackExact is
 # not asserted when one of these change kinds is undone
-TOLERATE = ["spMiss"]
+TOLERATE = []
 
 
 def it(k, p="-", a="-", x=0, y=0):
@@ -51,18 +51,20 @@ def mc_module(name, prelude, kinds):
             % (name, pre, ", ".join('"%s"' % k for k in kinds), ", ".join('"%s"' % k for k in TOLERATE)))
 
 
-def cfg_text(prelude, maxh, maxitems, rollbacks, span, emit=None, simlen=1000, invariants=True, tolerate=True):
+def cfg_text(prelude, maxh, maxitems, rollbacks, span, emit=None, simlen=1000, invariants=True, tolerate=True,
+             checkpoint=False, sample=1):
     su = PRELUDES[prelude]["su"]
     lines = ["SPECIFICATION Spec", "CONSTANTS", "  PSeq <- PSeqV", "  ASeq <- ASeqV", '  V2Reg = {"p3"}', '  V2Upd = {"p1"}',
              "  SU = %d" % su, "  MaxH = %d" % maxh, "  Prelude <- PreludeV", "  MaxItems = %d" % maxitems, "  Kinds <- KindsV",
              "  MaxRollbacks = %d" % rollbacks, "  RollbackSpan = %d" % span,
              "  StakeAmts = {2, 3}", "  TopUps = {1, 6}", "  VoteAmts = {1}", "  LockSpans = {2, 3}",
-             "  Tolerate <- TolerateV" if tolerate else "  Tolerate = {}", "  SimLen = %d" % simlen]
+             "  Tolerate <- TolerateV" if tolerate else "  Tolerate = {}", "  SimLen = %d" % simlen,
+             "  WithCheckpoint = %s" % ("TRUE" if checkpoint else "FALSE"), "  SampleN = %d" % sample]
     lines += ["  %s = %d" % kv for kv in sorted(CONSTS.items())]
     lines.append("VIEW view")
     if invariants:
         lines.append("INVARIANTS TypeOK RollbackExact IsDirectBuild NonNegative VotesWithinRights UsedIsSum TotalIsUtxo")
-        lines.append("PROPERTIES NoOverdraw")
+        lines.append("PROPERTIES NoOverdraw CheckpointIsIdentity")
     if emit:
         lines.append("ACTION_CONSTRAINT " + emit)
     lines.append("CHECK_DEADLOCK FALSE")
@@ -85,10 +87,11 @@ def strat(b):
 
 
 def tlc_run(chk, label, prelude, kinds, maxh, maxitems, rollbacks, span=4, emit=None, workers=8, timeout=1500,
-            simulate=None, depth=None, simlen=1000, invariants=True, seed=None):
+            simulate=None, depth=None, simlen=1000, invariants=True, seed=None, checkpoint=False, sample=1):
     name = "MC" + "".join(c for c in label.title() if c.isalnum())
     r = vf.tlc("Consensus", name, name + ".cfg",
-               cfg_text=cfg_text(prelude, maxh, maxitems, rollbacks, span, emit=emit, simlen=simlen, invariants=invariants),
+               cfg_text=cfg_text(prelude, maxh, maxitems, rollbacks, span, emit=emit, simlen=simlen, invariants=invariants,
+                                 checkpoint=checkpoint, sample=sample),
                files={name + ".tla": mc_module(name, prelude, kinds)}, workers=workers, timeout=timeout,
                simulate=simulate, depth=depth, seed_arg=seed)
     vf.tlc_ok(r, "DPoS " + label)
@@ -149,7 +152,9 @@ def pick(behs, limit, rng):
 def _explore(chk, job, rng_seed):
     label, prelude, kinds, maxh, maxitems, rb, limit = job[:7]
     span = job[7] if len(job) > 7 else 6
-    r = tlc_run(None, label, prelude, kinds, maxh, maxitems, rb, span=4, emit="Emit", workers=1)
+    sample = job[8] if len(job) > 8 else 1
+    r = tlc_run(None, label, prelude, kinds, maxh, maxitems, rb, span=4, emit="Emit", workers=1, sample=sample,
+                seed=rng_seed)
     behs, st = vf.behaviours(r, limit=None)
     behs = pick(behs, limit, random.Random(rng_seed))
     st["selected"] = len(behs)
